@@ -565,6 +565,48 @@ def cp29_monitors(chk, tier):
             chk.violation("specdens:cp29_exception", "CP29 spectral density raised %r" % (e,), "monitor", inp)
 
 
+def duplicate_monitor(chk, tier):
+    """components with IDENTICAL parameters (two distinct objects, or the same object twice) as a user has them - no bookkeeping
+    label in the dictionaries: every one counts, also after the sum has been rebuilt from its component list (a further +,
+    copy(), the Fourier transforms)."""
+    import numpy as np
+    import quantarhei as qr
+    r = cm.rng(PID + "dup")
+    ta = qr.TimeAxis(0.0, NT, 1.0)
+    for k in range(6 if tier == "quick" else 40):
+        ftype = ["OverdampedBrownian", "OverdampedBrownian-HighTemperature", "UnderdampedBrownian"][k % 3]
+        pa = {"ftype": ftype, "T": 300, "reorg": float(r.choice([10, 20, 35, 50])), "cortime": float(r.choice([50, 100, 150]))}
+        if ftype == "UnderdampedBrownian":
+            pa = {"ftype": ftype, "T": 300, "reorg": pa["reorg"], "freq": float(r.choice([100, 200, 350])), "gamma": float(r.choice([10, 20, 40]))}
+        pc = {"ftype": "OverdampedBrownian", "T": 300, "reorg": float(r.choice([15, 45])), "cortime": float(r.choice([30, 80]))}
+        how = ["distinct_objects", "same_object"][(k // 3) % 2]
+        c = {"kind": "duplicate", "how": how, "a": pa, "c": pc}
+        try:
+            with qr.energy_units("1/cm"):
+                a1 = qr.CorrelationFunction(ta, dict(pa))
+                a2 = qr.CorrelationFunction(ta, dict(pa)) if how == "distinct_objects" else a1
+                cc = qr.CorrelationFunction(ta, dict(pc))
+            want = a1.data + a2.data + cc.data
+            lam = a1.lamb + a2.lamb + cc.lamb
+            sc = float(np.max(np.abs(want)))
+            s1 = (a1 + a2) + cc
+            s2 = (cc + a1) + a2
+            forms = [("(a + a') + c", s1), ("(c + a) + a'", s2), ("((a + a') + c).copy()", s1.copy())]
+            s3 = a1 + a2
+            forms.append(("(a + a').copy() + c", s3.copy() + cc))
+            chk.count("duplicate:" + how)
+            chk.case(("duplicate", k, how, ftype), True)
+            for nm, s in forms:
+                dev = float(np.max(np.abs(s.data - want)))
+                if dev > 1e-12 * sc or abs(s.lamb - lam) > 1e-12 * lam or len(s.params) != 3:
+                    chk.violation("duplicate:" + how, "%s with a, a' of identical parameters (%s): data differ from the sum of the components' data by "
+                                  "%.3g (relative %.3g), reorganisation energy %.6g (sum %.6g), %d components recorded"
+                                  % (nm, how, dev, dev / sc, s.lamb, lam, len(s.params)), "monitor", c)
+                    break
+        except Exception as e:
+            chk.violation("duplicate:exception", "duplicate-component monitor raised %r" % (e,), "monitor", c)
+
+
 def main():
     chk = cm.Check(PID, args.tier)
     chk.rule = ("random programs: trees of + over 2-6 components (OverdampedBrownian with/without explicit Matsubara count, "
@@ -594,6 +636,7 @@ def main():
         run(chk, cases)
         extra_monitors(chk, args.tier)
         cp29_monitors(chk, args.tier)
+        duplicate_monitor(chk, args.tier)
     chk.finish()
 
 
